@@ -112,11 +112,13 @@ func evaluate(e *Env, confirmKey string, ex filesystem.Extractor, sfs scalibrfs.
 				out.wasSlow = true
 				if hard > soft && confirmed() >= maxConfirm {
 					out.class = "Slow"
+					noteHang(e, confirmKey)
 					return out
 				}
 			}
 			if el > hard {
 				out.class = "Timeout"
+				noteHang(e, confirmKey)
 				if f, err := os.OpenFile(confirmFile, os.O_APPEND|os.O_CREATE|os.O_WRONLY, 0o644); err == nil {
 					f.Write([]byte{'x'})
 					f.Close()
@@ -125,6 +127,26 @@ func evaluate(e *Env, confirmKey string, ex filesystem.Extractor, sfs scalibrfs.
 			}
 		}
 	}
+}
+
+// hangs of one extractor in this run (confirmed or not): once there are maxHangs of them the verdict
+// is clear and the remaining plans of that extractor are not evaluated (each would cost 10-100 s)
+const maxHangs = 12
+
+func hangFile(e *Env, key string) string {
+	return filepath.Join(e.Tmp, "hangs-"+strings.ReplaceAll(key, "/", "_"))
+}
+
+func noteHang(e *Env, key string) {
+	if f, err := os.OpenFile(hangFile(e, key), os.O_APPEND|os.O_CREATE|os.O_WRONLY, 0o644); err == nil {
+		f.Write([]byte{'h'})
+		f.Close()
+	}
+}
+
+func tooManyHangs(e *Env, key string) bool {
+	fi, err := os.Stat(hangFile(e, key))
+	return err == nil && fi.Size() >= maxHangs
 }
 
 var _ = Safely
